@@ -55,6 +55,12 @@ def check(run, prog, tier):
     run.rule("C03-K", "a molecule handed over as an object is found in the aggregate by identity, not through its name: names are "
                       "labels (the default name is the same for every molecule) and couplings belong to positions", minimum=2)
     rule_K(run, prog)
+    run.rule("C03-M", "'for any set of molecules, resonance couplings ...': the couplings computed from positions and dipoles are a function "
+                      "of the arguments of the call.  A method of the aggregate that takes its parameters as a dictionary (or any "
+                      "argument with a mutable default) reads them and leaves them as they are - pop / del / clear / update / item "
+                      "assignment empties the caller's dictionary (and the shared default), and the next call with the same object "
+                      "silently falls back to other values", minimum=1)
+    rule_M(run, prog)
     run.rule("C03-A", "point-dipole interaction formula (TA)", minimum=2)
     run.rule("C03-B", "Coulomb constant in Debye/Angstrom/fs^-1 units (constant folding)", minimum=2)
     run.rule("C03-C", "coupling matrix is written symmetrically", minimum=2)
@@ -220,6 +226,63 @@ def eval_transition_dipole(prog, n):
             if not isinstance(got, Sym) or not got.same(exp):
                 bad.append((a, b, repr(got), repr(exp)))
     return bad, npairs, len(states)
+
+
+_DICT_MUTATORS = ("pop", "popitem", "clear", "update", "setdefault", "__delitem__", "__setitem__")
+
+
+def rule_M(run, prog):
+    """Every method of AggregateBase with a parameter whose default is a mutable literal / dict(...) call, or which is
+    subscripted with a string key (a dictionary of options): no mutating call on it, no `del p[k]`, no `p[k] = v`."""
+    rid = "C03-M"
+    cls = prog.cls(AB[:-1])
+    n = 0
+    for name, f in sorted(cls.methods.items()):
+        if not isinstance(f.node, ast.FunctionDef):
+            continue
+        a_ = f.node.args
+        pos = a_.posonlyargs + a_.args
+        dflt = dict(zip([x.arg for x in pos[len(pos) - len(a_.defaults):]], a_.defaults))
+        dflt.update({k.arg: d for k, d in zip(a_.kwonlyargs, a_.kw_defaults) if d is not None})
+        cands = set()
+        for x in pos[1:] + a_.kwonlyargs:
+            d = dflt.get(x.arg)
+            if isinstance(d, (ast.Dict, ast.List, ast.Set)) or (isinstance(d, ast.Call) and call_name(d) in ("dict", "list", "set")):
+                cands.add(x.arg)
+        for x in walk_no_nested(f.node):
+            if isinstance(x, ast.Subscript) and isinstance(x.value, ast.Name) and isinstance(x.slice, ast.Constant) \
+                    and isinstance(x.slice.value, str) and x.value.id in {y.arg for y in pos[1:] + a_.kwonlyargs}:
+                cands.add(x.value.id)
+        for p_ in sorted(cands):
+            # rebinding the name to a copy first makes later changes local
+            rebound = [st.lineno for st in walk_no_nested(f.node) if isinstance(st, ast.Assign)
+                       and any(isinstance(t_, ast.Name) and t_.id == p_ for t_ in st.targets)]
+            first_rebind = min(rebound) if rebound else 10 ** 9
+            bad = []
+            for x in walk_no_nested(f.node):
+                ln = getattr(x, "lineno", 0)
+                if ln >= first_rebind:
+                    continue
+                if isinstance(x, ast.Call) and isinstance(x.func, ast.Attribute) and isinstance(x.func.value, ast.Name) \
+                        and x.func.value.id == p_ and x.func.attr in _DICT_MUTATORS:
+                    bad.append((x, "%s.%s(...)" % (p_, x.func.attr)))
+                elif isinstance(x, ast.Delete) and any(isinstance(t_, ast.Subscript) and isinstance(t_.value, ast.Name)
+                                                       and t_.value.id == p_ for t_ in x.targets):
+                    bad.append((x, "del %s[...]" % p_))
+                elif isinstance(x, (ast.Assign, ast.AugAssign)):
+                    tg = x.targets if isinstance(x, ast.Assign) else [x.target]
+                    if any(isinstance(t_, ast.Subscript) and isinstance(t_.value, ast.Name) and t_.value.id == p_ for t_ in tg):
+                        bad.append((x, "%s[...] = ..." % p_))
+            n += 1
+            prog.consulted.add(f.relpath)
+            run.obligation(rid, f.short, not bad, key="argument-intact:" + p_,
+                           message="%s changes its argument '%s' (%s): the dictionary belongs to the caller%s; a second call with the "
+                                   "same object no longer finds what the first one took out and falls back to other values"
+                                   % (f.short, p_, ", ".join(t for _, t in bad[:3]),
+                                      " and, as the default, to every later call" if p_ in dflt else ""),
+                           loc=f.loc(bad[0][0]) if bad else f.loc(), sample={"method": f.short, "argument": p_})
+    if n < 1:
+        raise AnalysisError("C03-M: no method of AggregateBase with a dictionary of parameters found")
 
 
 def rule_K(run, prog):
